@@ -51,7 +51,7 @@ VFrom(S, t, bs, w) ==
          IF w.kt # TypeCode(S, r.kt) \/ w.vt # TypeCode(S, r.vt) THEN NilC("map")
          ELSE LET items == IF IsLazy(w) THEN ForceOne(bs, w) ELSE [ok |-> TRUE, e |-> w.m, ec |-> "none"] IN
               IF ~items.ok THEN Bad
-              ELSE LET ms == VPairs(S, r.kt, r.vt, bs, items.e) IN IF IsBadSeq(ms) THEN Bad ELSE [k |-> "map", m |-> ms]
+              ELSE LET ms == VPairs(S, r.kt, r.vt, bs, items.e) IN IF IsBadSeq(ms) THEN Bad ELSE [k |-> "map", m |-> IF GoMapKey(S, r.kt) THEN KeepLast(ms, 1) ELSE ms]
     [] r.k = "ref" ->
          IF Def(S, r.n).kind = "enum" THEN [k |-> "int", n |-> w.n]
          ELSE LET d == Def(S, r.n)
@@ -119,7 +119,7 @@ SDec(S, t, bs, p) ==
               ELSE IF bs[p] # TypeCode(S, r.kt) \/ bs[p+1] # TypeCode(S, r.vt) THEN
                      (LET s == SkipKV(bs, p + 6, bs[p], bs[p+1], n, FALSE, 0) IN IF ~s.ok THEN SErr ELSE SOk(s.p, NilC("map")))
               ELSE LET it == SKVs(S, r.kt, r.vt, bs, p + 6, n, <<>>) IN
-                   IF ~it.ok THEN SErr ELSE SOk(it.p, [k |-> "map", m |-> it.v])
+                   IF ~it.ok THEN SErr ELSE SOk(it.p, [k |-> "map", m |-> IF GoMapKey(S, r.kt) THEN KeepLast(it.v, 1) ELSE it.v])
     [] r.k = "ref" ->
          IF Def(S, r.n).kind = "enum" THEN
               (LET x == ReadScalar(bs, p, TI32, 0) IN IF ~x.ok THEN SErr ELSE SOk(x.p, [k |-> "int", n |-> x.v.n]))
